@@ -45,14 +45,28 @@ def handleC15 (op : String) (input impl : Json) : Except String Json := do
   match op with
   | "ops" =>
     let opsJ ← arrFld input "ops"
-    let ops ← opsJ.mapM ropOf
-    let outsC := runC Facts.refFilterIsLiteralPrefix { refs := [], logs := [] } ops
-    let outsA := runA { vals := [], logs := [] } ops
-    let mj := Json.mkObj [("res", "ok"), ("val", Json.arr (outsC.map jROut).toArray)]
+    -- `setlogfail`: a logged set whose reflog insert is made to fail (an SQL trigger installed by the
+    -- harness): ref and log are written in one transaction, so it must fail and change nothing —
+    -- for the model it is not an operation at all
+    let isFail := fun (o : Json) => opKind o == "setlogfail"
+    let ops ← (opsJ.filter (fun o => !isFail o)).mapM ropOf
+    let splice := fun (outs : List Json) =>
+      let rec go (os : List Json) (rs : List Json) (acc : List Json) : List Json :=
+        match os with
+        | [] => acc.reverse
+        | o :: rest =>
+          if isFail o then go rest rs (Json.str "err" :: acc)
+          else match rs with
+            | r :: rs' => go rest rs' (r :: acc)
+            | [] => acc.reverse
+      go opsJ outs []
+    let outsCJ := splice ((runC Facts.refFilterIsLiteralPrefix { refs := [], logs := [] } ops).map jROut)
+    let outsAJ := splice ((runA { vals := [], logs := [] } ops).map jROut)
+    let mj := Json.mkObj [("res", "ok"), ("val", Json.arr outsCJ.toArray)]
     let viol ←
       if resClass impl == "ok" then do
         let io ← asArr (fldD impl "val" Json.null)
-        let exp := outsA.map jROut
+        let exp := outsAJ
         let bad := ((io.zip exp).zip opsJ).filterMap (fun ((i, e), o) =>
           if i.compress == e.compress then none else some ("ref-store-" ++ opKind o ++ "-behaves-as-map"))
         pure ((if io.length == exp.length then [] else ["trace-length"]) ++ bad.eraseDups)
